@@ -23,6 +23,19 @@ func genProc(r *hx.Rand, engine string, recs [][2]int, errs bool) ProcSpec {
 	if engine == "v1" && r.Bool() {
 		p.Workers = r.Range(2, 4)
 	}
+	if engine == "v2" {
+		// output-capped processors (short replies) and unanswered records: the retry protocol
+		if r.Chance(1, 6) {
+			p.Cap = r.Range(1, 3)
+		}
+		if r.Chance(1, 10) {
+			for _, id := range recs {
+				if r.Chance(1, 4) {
+					p.Hole = append(p.Hole, id)
+				}
+			}
+		}
+	}
 	return p
 }
 
@@ -244,6 +257,186 @@ func GenFilterChain(r *hx.Rand) Case {
 	}
 	for i := 0; i < 16; i++ {
 		c.Sched = append(c.Sched, r.Intn(1<<16))
+	}
+	return c
+}
+
+// GenRetry draws one case of the DIRECTED v2 family "retry in the middle of a batch": batches
+// of 3..8 records pass a chain of 2..3 processors of which at least one answers short (an
+// output cap of 1..3 records per call) and/or leaves single records unanswered the first time
+// it sees them, while another processor of the chain - before or after it - filters or fails
+// records. The batch a retrying task leaves behind then mixes ack, retry, filter and nack groups
+// in every order: retried records in FRONT of records that are already finished (filtered
+// upstream), between them, and (holes) in front of records that still have to travel on.
+// Whatever the mix, the source must be acked in read order and every destination must receive
+// the records in read order.
+func GenRetry(r *hx.Rand) Case {
+	c := Case{Engine: "v2", GoMaxProcs: []int{1, 2, 4, 16}[r.Intn(4)], Collide: r.Chance(1, 3)}
+	nsrc := r.Range(1, 2)
+	var all [][2]int
+	for s := 0; s < nsrc; s++ {
+		ss := SrcSpec{EOF: r.Bool(), SlowAck: r.Bool(), DeferAck: r.Chance(1, 3)}
+		k := 0
+		for b, nb := 0, r.Range(1, 3); b < nb; b++ {
+			n := r.Range(3, 8)
+			ss.Batches = append(ss.Batches, n)
+			for i := 0; i < n; i++ {
+				all = append(all, [2]int{s, k})
+				k++
+			}
+		}
+		c.Sources = append(c.Sources, ss)
+	}
+	pick := func(num, den int) [][2]int {
+		var out [][2]int
+		for _, id := range all {
+			if r.Chance(num, den) {
+				out = append(out, id)
+			}
+		}
+		return out
+	}
+	// the processor that drops (and sometimes fails) records, and the one that retries
+	drop := ProcSpec{Workers: 1, Filter: pick(1, 3)}
+	if len(drop.Filter) == 0 {
+		drop.Filter = [][2]int{all[r.Intn(len(all))]}
+	}
+	if r.Chance(1, 4) {
+		for _, id := range all {
+			if !inSet(drop.Filter, id[0], id[1]) && r.Chance(1, 6) {
+				drop.Err = append(drop.Err, id)
+			}
+		}
+	}
+	capped := ProcSpec{Workers: 1, Transform: r.Chance(1, 3)}
+	switch r.Intn(3) {
+	case 0:
+		capped.Cap = r.Range(1, 3)
+	case 1:
+		capped.Hole = pick(1, 3)
+		if len(capped.Hole) == 0 {
+			capped.Hole = [][2]int{all[r.Intn(len(all))]}
+		}
+	default:
+		capped.Cap = r.Range(2, 4)
+		capped.Hole = pick(1, 4)
+	}
+	if r.Chance(1, 3) {
+		capped.Filter = pick(1, 6) // the retrying processor filters, too
+	}
+	chain := []ProcSpec{drop, capped}
+	if r.Chance(1, 4) {
+		chain = []ProcSpec{capped, drop}
+	}
+	if r.Chance(1, 3) {
+		chain = append(chain, ProcSpec{Workers: 1, Cap: r.Range(1, 2), Filter: pick(1, 8)})
+	}
+	c.Dests = make([]DstSpec, r.Range(1, 2))
+	switch r.Intn(4) {
+	case 0, 1: // everything before the fan-out
+		c.PipeProcs = chain
+	case 2: // first at the source, the rest shared
+		for s := range c.Sources {
+			c.Sources[s].Procs = []ProcSpec{chain[0]}
+		}
+		c.PipeProcs = chain[1:]
+	default: // the tail of the chain inside every destination branch (below the fan-out)
+		c.PipeProcs = chain[:1]
+		for d := range c.Dests {
+			c.Dests[d].Procs = append([]ProcSpec(nil), chain[1:]...)
+		}
+	}
+	for d := range c.Dests {
+		ds := &c.Dests[d]
+		if r.Chance(1, 4) {
+			ds.Nack = pick(1, 8)
+		}
+		if r.Bool() {
+			ds.Chunks = []int{r.Range(1, 3)}
+		}
+	}
+	for i := 0; i < 24; i++ {
+		c.Sched = append(c.Sched, r.Intn(1<<16))
+	}
+	return c
+}
+
+// GenParallelHol draws one case of the DIRECTED v1 family "head-of-line blocking in a parallel
+// processor": 2..3 sources feed ONE ParallelNode of 4..8 workers (pipeline processor behind the
+// fan-in, or the same processor in every destination branch). The processing of one or two
+// records of a source is slow (released only when nothing else can move), so the coordinator
+// waits for that job while the workers behind it finish theirs and queue up; the records of a
+// victim source fail in the processor and are dead-lettered at once (their tickets depend only
+// on their own source), i.e. jobs that need no forwarding complete in the MIDDLE of the queue
+// while the coordinator is held up. Optionally the destination is slow as well (the coordinator
+// is then held up in its send). Whatever the completion order, every destination must receive
+// each source's records in read order.
+func GenParallelHol(r *hx.Rand) Case {
+	c := Case{Engine: "v1", GoMaxProcs: []int{2, 4, 16}[r.Intn(3)], Collide: r.Chance(1, 3)}
+	nsrc := 2
+	if r.Chance(1, 3) {
+		nsrc = 3
+	}
+	victim := r.Intn(nsrc)
+	allErr := r.Chance(3, 4)
+	par := ProcSpec{Workers: []int{4, 6, 8, 8}[r.Intn(4)]}
+	// shaped (2 in 3): a healthy source hands over ONE record (the slow one) and reads on only when
+	// nothing else can move, so the victim's records queue up right behind the slow job and the
+	// source's next batch behind them
+	shaped := r.Chance(2, 3)
+	for s := 0; s < nsrc; s++ {
+		ss := SrcSpec{SlowRead: shaped && s != victim}
+		k := 0
+		nb := r.Range(2, 3)
+		if s == victim {
+			nb = r.Range(1, 3)
+		}
+		for b := 0; b < nb; b++ {
+			n := r.Range(2, 4)
+			if s == victim {
+				n = r.Range(1, 2)
+			} else if b == 0 {
+				n = 1
+				if !shaped {
+					n = r.Range(1, 2)
+				}
+			}
+			ss.Batches = append(ss.Batches, n)
+			for i := 0; i < n; i++ {
+				switch {
+				case s == victim && (allErr || r.Chance(3, 4)):
+					par.Err = append(par.Err, [2]int{s, k})
+				case s != victim && i == 0 && (b == 0 || r.Chance(1, 4)):
+					// the first record of a batch of a healthy source is the slow one
+					par.SlowRecs = append(par.SlowRecs, [2]int{s, k})
+				case s != victim && r.Chance(1, 12):
+					par.Err = append(par.Err, [2]int{s, k})
+				case s != victim && r.Chance(1, 10):
+					par.Filter = append(par.Filter, [2]int{s, k})
+				}
+				k++
+			}
+		}
+		c.Sources = append(c.Sources, ss)
+	}
+	c.Dests = make([]DstSpec, r.Range(1, 2))
+	if r.Chance(1, 4) {
+		for d := range c.Dests {
+			c.Dests[d].Procs = []ProcSpec{par}
+		}
+	} else {
+		c.PipeProcs = []ProcSpec{par}
+	}
+	if r.Chance(1, 3) {
+		c.Dests[r.Intn(len(c.Dests))].Slow = true
+	}
+	for d := range c.Dests {
+		if r.Bool() {
+			c.Dests[d].Chunks = []int{r.Range(1, 2)}
+		}
+	}
+	for i := 0; i < 48; i++ {
+		c.Sched = append(c.Sched, r.Intn(1<<13)*8+r.Intn(7)) // never the "also slow gates" choice
 	}
 	return c
 }
